@@ -807,7 +807,7 @@ func ord4BalancerInput(m *Model, r *RuleResult, norm map[*ssa.Function]bool) {
 
 func runOrd5(m *Model, r *RuleResult) {
 	process := m.SSAFunc("internal/phase1", "(Alg).Process")
-	rev := m.SSAFunc("internal/graph", "(*Edge).Reverse")
+	rev := m.anchorReverse()
 	if process == nil || rev == nil {
 		r.undecided("anchors", "-", "phase1.(Alg).Process / (*Edge).Reverse", "not found")
 		return
@@ -1056,7 +1056,7 @@ func antiparallelWitness(m *Model, f *ssa.Function) (bool, string) {
 
 func runEff1(m *Model, r *RuleResult) {
 	m.fxInit()
-	rev := m.SSAFunc("internal/graph", "(*Edge).Reverse")
+	rev := m.anchorReverse()
 	if rev == nil {
 		r.undecided("anchor", "-", "(*Edge).Reverse", "not found")
 		return
@@ -1344,7 +1344,7 @@ func runEff2(m *Model, r *RuleResult) {
 	}
 	// UnreverseEdges: Reverse exactly under e.IsReversed
 	un := m.anchorUnreverse()
-	rev := m.SSAFunc("internal/graph", "(*Edge).Reverse")
+	rev := m.anchorReverse()
 	if un == nil || rev == nil {
 		r.undecided("anchor:UnreverseEdges", "-", "postprocessor.UnreverseEdges", "not found")
 	} else {
